@@ -46,12 +46,19 @@ def main() -> int:
             k = _re.search(r"_(C\d\d)/", d).group(1) + ("-r2-" if "/r2_" in d else "-") + os.path.basename(d)
             if os.path.isfile(os.path.join(d, "patch.diff")) and k not in kept and (not sel or any(s in k for s in sel)):
                 ids.append(d)
-    bad = 0
+    bad = declined = 0
     with ThreadPoolExecutor(8) as ex:
         for sid, ok, msg in ex.map(one, ids):
+            why = None
+            if not sid.startswith("/"):
+                why = json.load(open(os.path.join(SEEDED, sid, "meta.json"))).get("declined")
+            if why and not ok:
+                declined += 1
+                print("declined " + sid + "  (not decided by this technique: " + why[:80] + "...)")
+                continue
             print(("caught " if ok else "MISSED ") + sid + "  " + msg)
             bad += not ok
-    print(f"{len(ids) - bad}/{len(ids)} seeded changes caught")
+    print(f"{len(ids) - bad - declined}/{len(ids)} seeded changes caught, {declined} declined as value-level, {bad} missed")
     return 1 if bad else 0
 
 
